@@ -22,6 +22,8 @@ r = subprocess.run(["git", "-C", "/repo", "apply", os.path.join(d, "patch.diff")
 if r.returncode != 0:
     print("patch does not apply:", r.stderr); sys.exit(2)
 res = {"tier": tier, "checks": {}}
+# the evidence files describe the UNCHANGED tree: keep them, a trial run must not replace them
+saved_evidence = {p: open(f"/verif/evidence/{p}.json").read() for p in props if os.path.exists(f"/verif/evidence/{p}.json")}
 try:
     for p in props:
         t0 = time.time()
@@ -35,6 +37,8 @@ try:
 finally:
     subprocess.run(["git", "-C", "/repo", "checkout", "--", "."])
     subprocess.run(["git", "-C", "/repo", "clean", "-fdq"])
+    for p, txt in saved_evidence.items():
+        open(f"/verif/evidence/{p}.json", "w").write(txt)
 res["caught"] = any(v["exit"] != 0 for v in res["checks"].values())
 json.dump(res, open(os.path.join(d, "result.json"), "w"), indent=1)
 print("caught" if res["caught"] else "MISSED")
